@@ -324,6 +324,44 @@ NODE_ASSUME = ["the unsafe impl Send for the callback wrapper is sound given the
                "bounded time = bounded own steps x SAMPLING_TIMEOUT; monitored with a 1.5-3 s bound", "tie samples schedules (real threads), weaker than the differential ties"]
 
 
+class C12(Prop):
+    id = "C12"
+    module = "MioModel.Props.C12"
+    bins = ["udp"]
+    run_bin = "udp"
+    rule = ("cases = scripted UDP worlds on loopback: 1-2 library listeners, 1-3 raw std::net::UdpSocket peers, 1-3 library "
+            "sockets connected to a listener or a raw peer; 2-6 paced rounds of sends (connected -> peer, raw -> anybody, "
+            "listener -> anybody through Endpoint::from_listener or through the endpoint reported in an earlier event), sizes "
+            "0/1/2, <=64, around 1472, 8 KiB-32 KiB, max-2..max, above max; a fixed corpus (zero-length everywhere, exact "
+            "maximum everywhere, three senders one listener with replies, connected-socket filtering, listener to listener) and "
+            "a size sweep through four paths (stride 211 in the quick tier, every size 0..=max+1 in the thorough tier); plus the "
+            "from_listener guard on ids of every transport and side. non-trivial = a receiver with at least two distinct "
+            "senders, or a zero-length / maximum-size / reply case (tags multi-sender, zero, max, reply); distinct = by case line")
+    trusted_base = [KERNEL, TIE, "model of adapters/udp.rs + the UDP paths of driver.rs + Endpoint::from_listener written by hand (MioModel/Udp.lean)",
+                    "the kernel's datagram service on loopback is the model's environment: a datagram of at most 65507 bytes sent to a "
+                    "bound socket is queued whole with its source address unless the socket is connected elsewhere; recv cuts to the "
+                    "buffer; nothing is dropped while the receiver is polled between bursts (paced)"]
+    assumptions = ["loss under receive-buffer overflow, reordering between different senders, IPv6, multicast and the "
+                   "receive_broadcasts filter (accept_filtered) are outside the model; the WouldBlock retry loop of send_packet is "
+                   "not modelled (termination is the OS's)",
+                   "order is compared per (receiver, source) pair"]
+
+    def nontrivial(self, case, tags):
+        return any(t in tags.split(",") for t in ("multi-sender", "zero", "max", "reply"))
+
+    def tie(self, stats, tier, seed):
+        cmp = getattr(self, "compare", True)
+        thorough = tier == "thorough"
+        core.tie_run(stats, "udp", ["gen", seed, 400 if thorough else 60], self.nontrivial, cmp)
+        core.tie_run(stats, "udp", ["gen-sweep", 0, 65508, 1 if thorough else 211, 16], self.nontrivial, cmp)
+
+    def search(self, tier, seed):
+        st = core.Stats()
+        core.tie_run(st, "udp", ["gen", seed + 1, 200], self.nontrivial, False)
+        core.tie_run(st, "udp", ["gen-sweep", 0, 65508, 53, 16], self.nontrivial, False)
+        return st
+
+
 class C05(Prop):
     id = "C05"
     module = "MioModel.Props.C05"
@@ -529,4 +567,4 @@ class C14(Prop):
         core.tie_run(stats, "net", ["gen", seed + 80, 200 if tier == "thorough" else 24], lambda c, t: "removed" in t or "disconnected" in t, cmp)
 
 
-PROPS = {p.id: p() for p in [C01, C02, C03, C04, C05, C06, C07, C08, C09, C10, C11, C13, C14, C15, C16, C17, C18, C19]}
+PROPS = {p.id: p() for p in [C01, C02, C03, C04, C05, C06, C07, C08, C09, C10, C11, C12, C13, C14, C15, C16, C17, C18, C19]}
